@@ -220,17 +220,19 @@ def check_sections(fx, rep, rule, wv, seqs):
         # counts
         def strip_cast(t):
             return t[2] if t[0] == "cast" else t
+        def veclen(v):
+            return ("call", "std::vec::Vec::len", (strip_deref(v),))
         ncl = strip_cast(h.get("num_classes", ("?",)))
-        rep.check(rule, "%s/counts/num_classes" % rule, cm is not None and ncl == ("call", "std::collections::BTreeMap::len", (cm,)),
+        ok_ncl = (cm is not None and ncl == ("call", "std::collections::BTreeMap::len", (cm,))) or ncl == veclen(classes_v)
+        rep.check(rule, "%s/counts/num_classes" % rule, ok_ncl,
                   loc=F.short_file(rl.body["sp"]), found="num_classes = %s" % S.tstr(ncl),
-                  expected="len() of the class map whose values are emitted as Class entries (%s)" % (S.tstr(cm) if cm else "?"))
-        for fld_, lenf in (("num_members", "members_len"), ("num_members_by_params", "members_by_params_len")):
+                  expected="len() of the class map whose values are emitted as Class entries (%s), or of the emitted entry vector" % (S.tstr(cm) if cm else "?"))
+        for fld_, lenf, vec_ in (("num_members", "members_len", members_v), ("num_members_by_params", "members_by_params_len", byparams_v)):
             t = strip_cast(h.get(fld_, ("?",)))
-            good = False
-            if t[0] == "call" and t[1].endswith("Iterator::sum") and t[2][0][0] == "call" and t[2][0][1].endswith("Iterator::map"):
+            good = t == veclen(vec_)         # alternative: the length of exactly the vector that is emitted
+            if not good and t[0] == "call" and t[1].endswith("Iterator::sum") and t[2][0][0] == "call" and t[2][0][1].endswith("Iterator::map"):
                 src, clo = t[2][0][2]
                 if src[0] == "call" and src[1].endswith(("BTreeMap::values", "BTreeMap::into_values")) and src[2][0] == cm and clo[0] == "closure":
-                    cb = fx.bodies.get(clo[1])
                     sy2 = S.Sym(fx)
                     try:
                         r2 = sy2.apply(clo, [("bound", 0)], S.St(), {"sp": "?"})
@@ -238,7 +240,7 @@ def check_sections(fx, rep, rule, wv, seqs):
                     except S.Undecidable:
                         good = False
             rep.check(rule, "%s/counts/%s" % (rule, fld_), good, loc=F.short_file(rl.body["sp"]), found="%s = %s" % (fld_, S.tstr(t)),
-                      expected="sum over the class map of class.%s (the counter paired with the pushes, C09.3)" % lenf)
+                      expected="sum over the class map of class.%s (the counter paired with the pushes, C09.3), or len() of the emitted section vector" % lenf)
         sb = strip_cast(h.get("string_bytes", ("?",)))
         rep.check(rule, "%s/counts/string_bytes" % rule, sb[0] == "call" and sb[1].endswith("::len") and sb[2][0] == as_bytes_of(strings_v)
                   or (sb[0] == "call" and sb[2][0] == strip_deref(strings_v)),
